@@ -81,6 +81,9 @@ func NewCryptoKey(factory securememory.SecretFactory, created int64, revoked boo
 
 	sec, err := factory.New(key)
 	if err != nil {
+		// the factory may have failed before it copied and wiped the source, don't leave the plaintext key behind
+		MemClr(key)
+
 		return nil, err
 	}
 
